@@ -5,6 +5,7 @@ package absnfs
 import (
 	"fmt"
 	"runtime"
+	"strings"
 	"sync"
 	"sync/atomic"
 	"testing"
@@ -370,10 +371,11 @@ func vfC16Controlled(rec *evid.Rec, s int) {
 		}
 	}
 	// (f) no read lock leaked
-	if srv.nfs.policyRWMu.TryLock() {
-		srv.nfs.policyRWMu.Unlock()
-	} else {
-		fail("C16/policy-lock-still-held-at-quiescence", "no request and no update is running, yet the policy lock cannot be taken")
+	switch vfC16PolicyLockState(srv.nfs) {
+	case "busy":
+		rec.Inconclusive(1)
+	case "leaked":
+		fail("C16/policy-lock-still-held-at-quiescence", "no request and no update is running (no HandleCall goroutine exists any more), yet the policy lock cannot be taken")
 	}
 	rec.Eval(1)
 	to := "reply"
@@ -598,10 +600,11 @@ func vfC16Stress(rec *evid.Rec, s int) {
 		}
 	}
 	lg.mu.Unlock()
-	if srv.nfs.policyRWMu.TryLock() {
-		srv.nfs.policyRWMu.Unlock()
-	} else {
-		rec.Violate("C16/policy-lock-still-held-at-quiescence", "stress: no request and no update is running, yet the policy lock cannot be taken", map[string]any{"episode": s})
+	switch vfC16PolicyLockState(srv.nfs) {
+	case "busy":
+		rec.Inconclusive(1)
+	case "leaked":
+		rec.Violate("C16/policy-lock-still-held-at-quiescence", "stress: no request and no update is running (no HandleCall goroutine exists any more), yet the policy lock cannot be taken", map[string]any{"episode": s})
 	}
 	rec.Add("backend_calls_policy_checked", checked)
 	rec.Add("stress_requests", int(reqs.Load()))
@@ -609,4 +612,36 @@ func vfC16Stress(rec *evid.Rec, s int) {
 	rec.Distinct(fmt.Sprintf("stress|clients=%d|requests-with-backend-calls=%d", nclients, min64i(len(byPath)/50, 6)))
 	fs.SetHook(nil)
 	srv.Close()
+}
+
+// vfC16PolicyLockState tells whether a read lock on the policy was leaked. HandleCall's inner
+// goroutine releases its read lock just AFTER it has handed the result to the caller, so the lock
+// may legitimately still be held for a moment after the last reply. The verdict is structural:
+// "leaked" only if the lock cannot be taken although no goroutine that could release it exists
+// (no HandleCall.func1, no Update*Options frame); while such goroutines exist it is "busy".
+func vfC16PolicyLockState(n *AbsfsNFS) string {
+	for i := 0; i < 2000; i++ {
+		if n.policyRWMu.TryLock() {
+			n.policyRWMu.Unlock()
+			return "free"
+		}
+		if i < 200 {
+			runtime.Gosched()
+		} else {
+			time.Sleep(time.Millisecond)
+		}
+		if i%100 == 99 {
+			buf := make([]byte, 4<<20)
+			buf = buf[:runtime.Stack(buf, true)]
+			st := string(buf)
+			if !strings.Contains(st, "HandleCall.func") && !strings.Contains(st, "UpdatePolicyOptions") && !strings.Contains(st, "UpdateExportOptions") {
+				if n.policyRWMu.TryLock() {
+					n.policyRWMu.Unlock()
+					return "free"
+				}
+				return "leaked"
+			}
+		}
+	}
+	return "busy"
 }
